@@ -120,4 +120,11 @@ var props = []Prop{
 		Bounds:  "a filter out of 5 (mask, relation component, relation filter with zero target / with the first handle a world issues, relation filter over a non-relation component filter) registered before the history; 6 prefixes (populated tables, two parents, dead target, retired table, recycled ids, re-issued target id), resources added; right before the reset optionally: every entity removed one by one, or a query opened and closed; then Reset (thorough: two cycles): unlocked, no resources, no entities, registered filter = original filter, invariant; then 2 operations with a recording listener: behaviour must be that of a fresh world, i.e. handles {1,0},{2,0},.. with last-removed-first re-use (handle-sequence model), events per the C11 oracle, observables and queries (plain and registered) per the model, resource ids still valid; 2 configurations (thorough 24)",
 		Outside: "more than 2 operations after the reset; more than two reset cycles",
 	},
+	{
+		ID: "C20",
+		Harnesses: []H{{Pkg: "generic", Fn: "HC20_Resources"}, {Pkg: "generic", Fn: "HC20_Resources", Tags: "tiny", Tier: "thorough"}},
+		Conform: []H{{Pkg: "ecs", Fn: "HSmoke"}},
+		Bounds:  "4 resource types placed at IDs 0, 1 or 17, 63 or 64 (31/32 in tiny), and the last ID (255 / 63) by filler registrations that cross every 16-ID chunk and 64-bit word; symbolic sequences of 2 (thorough 4) operations out of: Add (World.Resources, generic.Resource, ecs.AddResource), Remove (World.Resources, generic.Resource), registration of a further type, entity creation + component registration, entity removal, lock/unlock by a query, Reset; after every step Has/Get of every registered type through all three APIs against the model (exact pointer identity, nil when absent), panics exactly for duplicate Add / missing Remove, no component ids consumed",
+		Outside: "more than 4 distinct resource types holding values at once (all 256 ids are registered by the fillers); sequences longer than 4 operations",
+	},
 }
